@@ -4,6 +4,9 @@ import (
 	"fmt"
 	"github.com/flosch/pongo2/v6"
 	"io"
+	"net/http"
+	"os"
+	"path/filepath"
 	"strings"
 )
 
@@ -104,7 +107,9 @@ func runC06(r *run) {
 			var sb strings.Builder
 			for k := 0; k < 2+rg.intn(6); k++ {
 				sb.WriteString(rg.pick([]string{" a ", "a b", "\n x", " ", "  \t", "x", "{# c #}", "{# c #}", "{% verbatim %} v {% endverbatim %}", "{% verbatim %}{% endverbatim %}",
-					"{{ b -}}", "{{- b }}", "{{- b -}}", "{%- if a %}", "{% if a -%}", "{%- if a -%}", "{% comment %}x{% endcomment %}", "{%- comment -%} x {%- endcomment -%}", "{{ b }}"}))
+					"{{ b -}}", "{{- b }}", "{{- b -}}", "{%- if a %}", "{% if a -%}", "{%- if a -%}", "{% comment %}x{% endcomment %}", "{%- comment -%} x {%- endcomment -%}", "{{ b }}",
+					// characters that Unicode calls space but whitespace control does not remove
+					"\u00a0", "\f", "\v", "\u0085", "\u2003", " \u00a0 ", "\n\f\n", "\u3000x"}))
 			}
 			src := sb.String()
 			src += strings.Repeat("{% endif %}", strings.Count(src, "if a"))
@@ -124,6 +129,10 @@ func runC06(r *run) {
 			args := w.args(strings.Join(frags, ""), c06Ctx())
 			args = append(args, "-", "-", joinHex(frags))
 			emit(caseT{"frags", args})
+		}
+		// the same text files through the loaders pongo2 ships, on a real directory
+		for i := 0; i < 44; i++ {
+			emit(caseT{"realtext", []string{fmt.Sprint(i)}})
 		}
 		// fragment sequences
 		for i := 0; i < nfr; i++ {
@@ -149,7 +158,46 @@ func runC06(r *run) {
 	r.finish(nil)
 }
 
+func execRealText(r *run, c caseT) {
+	var i int
+	fmt.Sscanf(c.args[0], "%d", &i)
+	prefixes := []string{"", "\xef\xbb\xbf", "\xef\xbb", "\ufeff\ufeff", "\xff\xfe", "\x00", "#!", "\r\n", "<?xml", " ", "\xc3"}
+	text := prefixes[i%len(prefixes)] + "id,name\r\n1,x\r\n"
+	dir := filepath.Join(r.outdir, fmt.Sprintf("realtext%d", i))
+	must(os.MkdirAll(dir, 0o755))
+	must(os.WriteFile(filepath.Join(dir, "t.txt"), []byte(text), 0o644))
+	must(os.WriteFile(filepath.Join(dir, "wrap.tpl"), []byte("[{% include \"t.txt\" %}]"), 0o644))
+	var l pongo2.TemplateLoader
+	switch (i / len(prefixes)) % 4 {
+	case 0:
+		l = pongo2.MustNewLocalFileSystemLoader(dir)
+	case 1:
+		sl, err := pongo2.NewSandboxedFilesystemLoader(dir)
+		must(err)
+		l = sl
+	case 2:
+		l = pongo2.NewFSLoader(os.DirFS(dir))
+	default:
+		hl, err := pongo2.NewHttpFileSystemLoader(http.Dir(dir), "")
+		must(err)
+		l = hl
+	}
+	set := pongo2.NewSet("realtext", l)
+	direct, e1 := set.RenderTemplateFile("t.txt", nil)
+	wrapped, e2 := set.RenderTemplateFile("wrap.tpl", nil)
+	fromString, e3 := set.RenderTemplateString(text, nil)
+	id := r.emit(c.op, c.args, "realtext")
+	r.nontrivial("realtext" + c.args[0])
+	if e1 != nil || e2 != nil || e3 != nil || direct != text || wrapped != "["+text+"]" || fromString != text {
+		r.reject(id, "text read through one of pongo2's loaders is not reproduced byte for byte", map[string]any{"text_hex": hx(text), "direct_hex": hx(direct), "included_hex": hx(wrapped), "loader": (i / len(prefixes)) % 4})
+	}
+}
+
 func execC06(r *run, c caseT) {
+	if c.op == "realtext" {
+		execRealText(r, c)
+		return
+	}
 	if c.op == "textfile" {
 		w, name, ctx := worldFromArgs(c.args)
 		o, _ := w.render(name, true, ctx)
